@@ -39,12 +39,28 @@ class OrchWorld(AgentWorld):
             self.agents[name] = a
         self.phase_steps = {}
 
-    def boot_all(self, order=None):
+    def boot_all(self, order=None, lazy=False):
+        """lazy: the agents' threads "start" (Agent._on_start) at arbitrary moments of the run, as schedulable steps"""
         names = [n for n in self.agents if n != "orchestrator"]
         if order:
             order.shuffle(names)
-        for n in names:
+        self.unbooted = []
+        for i, n in enumerate(names):
+            if lazy and i > 0:
+                self.unbooted.append(n)
+            else:
+                self.boot(n, start_directory=False)
+
+    def runnable(self):
+        return super().runnable() + ["boot:" + n for n in getattr(self, "unbooted", [])]
+
+    def step(self, name, periodic=False):
+        if name.startswith("boot:"):
+            n = name[5:]
+            self.unbooted.remove(n)
             self.boot(n, start_directory=False)
+            return None
+        return super().step(name, periodic)
 
     def until(self, cond, what, max_steps=40000):
         n = self.run(max_steps=max_steps, until=cond)
